@@ -194,7 +194,8 @@ pub fn run(opts: &Opts) {
             for s in pool_of(&c3) {
                 pool.get(&s);
             }
-            let budget: i64 = 1000;
+            // two seconds as well: a budget above one second tells whole seconds from the fraction
+            let budget: i64 = *pick(&mut rng, &[1000i64, 1000, 2000]);
             let rt = *pick(&mut rng, &[0i64, 200, 400, 600, 1100]);
             let ct = *pick(&mut rng, &[0i64, 200, 500, 700, 1100]);
             let qt = *pick(&mut rng, &[0i64, 300, 600]);
@@ -222,15 +223,23 @@ pub fn run(opts: &Opts) {
                 Op::Value(Term::Integer(0)), Op::Binary(biscuit_auth::builder::Binary::GreaterThan)] };
             let tqf = Rule::new(Predicate { name: "data".into(), terms: vec![] }, vec![], vec![tick_expr(*pick(&mut rng, &[300i64, 600, 1100])), div0], vec![]);
             let mut calls: Vec<Value> = (0..rng.gen_range(1..4))
-                .map(|_| match rng.gen_range(0..5) {
+                .map(|_| match rng.gen_range(0..7) {
                     0 => json!({"query": {"all": true, "q": rule_j(&tq, &mut pool, &keys)}}),
                     1 => json!({"query": {"all": false, "q": rule_j(&tq, &mut pool, &keys)}}),
                     2 => json!({"query": {"all": false, "q": rule_j(&tqf, &mut pool, &keys)}}),
                     3 => json!({"query": {"all": true, "q": rule_j(&tqf, &mut pool, &keys)}}),
+                    4 => json!("restore"),
                     _ => json!("authorize"),
                 })
                 .collect();
             calls.push(json!("authorize"));
+            // the authorizer replaced by what its snapshot restores, then a query that needs no clock (external functions are
+            // not part of a snapshot): time spent before the snapshot stays spent, whole seconds included
+            if rng.gen_range(0..3) == 0 {
+                let plain = Rule::new(Predicate { name: "data".into(), terms: vec![] }, vec![], vec![Expression { ops: vec![Op::Value(Term::Bool(true))] }], vec![]);
+                calls.push(json!("restore"));
+                calls.push(json!({"query": {"all": rng.gen::<bool>(), "q": rule_j(&plain, &mut pool, &keys)}}));
+            }
             c3["calls"] = json!(calls);
             c3["pool"] = json!(pool.strs);
             c3["time"] = json!(true);
